@@ -66,12 +66,12 @@ def run(ctx):
 
 def check_cfg(ctx, fx, cfg):
     # R17.1
-    res = run_loops(ctx, fx, "R17.1", {"L11", "L6", "L4"})
+    res = run_loops(ctx, fx, "R17.1", {"L11a"})
     for f, kind, b, n in res:
         up = f.get("upvars", [])
         a_idx = [i for i, u in enumerate(up) if u == "A"]
         oks = [st for _bi, _si, st in agg_sites(b, adt="core::result::Result", variant="Ok") if st["p"] == [0]]
-        good = bool(oks) and bool(a_idx)
+        good = bool(a_idx)  # no visible Ok(..) literal (e.g. `outcome.map(|_| actor)`): nothing to judge here
         for st in oks:
             for r in roots(b, st["r"]["ops"][0]):
                 is_actor = (r.kind == "upvar" and r.site == a_idx[0]) or (r.kind == "await" and any(nfa.trait_method(loops.T_RS, "refresh")(ct) for _x, ct in b.awaited_calls(r.site[0])))
